@@ -677,7 +677,7 @@ func TestVerifC12m(t *testing.T) {
 	if r.Quick() {
 		phases = []phase{
 			{"full-int", 1, 3}, {"full-float", 1, 3}, {"full-int", 2, 3}, {"full-float", 2, 3},
-			{"small-int", 3, 2}, {"small-float", 3, 2},
+			{"small-int", 3, 2}, {"small-float", 3, 1},
 		}
 	} else {
 		phases = []phase{
@@ -1163,8 +1163,8 @@ func TestVerifC12d(t *testing.T) {
 	if r.Quick() {
 		phases = []phase{
 			{"small-int", 1, 3, []c12dCfg{cfg(32, 0)}}, {"small-float", 1, 3, []c12dCfg{cfg(32, 0)}},
-			{"full-int", 2, 3, []c12dCfg{cfg(32, 0), cfg(32, 1)}}, {"full-float", 2, 3, []c12dCfg{cfg(32, 0)}},
-			{"small10-int", 3, 3, []c12dCfg{cfg(32, 0), cfg(32, 1), cfg(32, 2), cfg(1, 0)}},
+			{"small-int", 2, 3, []c12dCfg{cfg(32, 0), cfg(32, 1)}}, {"small-float", 2, 3, []c12dCfg{cfg(32, 0), cfg(32, 1)}},
+			{"small10-int", 3, 3, []c12dCfg{cfg(32, 0), cfg(32, 2), cfg(1, 0)}},
 			{"small10-float", 3, 3, []c12dCfg{cfg(32, 2)}},
 		}
 	} else {
@@ -1176,7 +1176,7 @@ func TestVerifC12d(t *testing.T) {
 			{"small10-int", 4, 1, []c12dCfg{cfg(32, 2)}},
 		}
 	}
-	const batchSize = 16384
+	const batchSize = 8192
 	type job struct {
 		ph       int
 		from, to int64 // range of (sequence, split) case indices
@@ -1234,7 +1234,7 @@ func TestVerifC12d(t *testing.T) {
 	r.Count("not_counter_reset_markings_checked", int(st.marked.Load()))
 	r.Count("results_checked", int(st.queries.Load()))
 	r.Set("phases_db", desc)
-	r.Set("rule_db", "part d: every sequence of counter atoms of one representation is one series (timestamps 1900,1910,...) of a real tsdb.DB (up to 16384 series per DB); every split assigns each sample to the head or to one of two backfilled blocks (written with BlockWriter, moved into the DB directory, reloadBlocks) and every append order of the head samples (a sample older than an earlier-appended one lands in the out-of-order head). Configurations: OOO chunk capacity 32 or 1; optionally a head chunk-range boundary before one of the samples (the head and the block writers then cut a chunk by time and compute its header against the previous chunk). Reads: DB.Querier full range (integer histograms also through AtFloatHistogram at the live stage), DB.Querier for every proper sub-range [t_i,t_j] (through AtFloatHistogram), DB.ChunkQuerier full range; at five stages: live, after CompactOOOHead, after Compact (vertical merge of the overlapping blocks), after CompactHead, after a final Compact. distinct_nontrivial counts the enumerated (sequence, split, configuration) cases (distinct by construction) in which at least one returned sample was marked NotCounterReset.")
+	r.Set("rule_db", "part d: every sequence of counter atoms of one representation is one series (timestamps 1900,1910,...) of a real tsdb.DB (up to 8192 series per DB); every split assigns each sample to the head or to one of two backfilled blocks (written with BlockWriter, moved into the DB directory, reloadBlocks) and every append order of the head samples (a sample older than an earlier-appended one lands in the out-of-order head). Configurations: OOO chunk capacity 32 or 1; optionally a head chunk-range boundary before one of the samples (the head and the block writers then cut a chunk by time and compute its header against the previous chunk). Reads: DB.Querier full range (integer histograms also through AtFloatHistogram at the live stage), DB.Querier for every proper sub-range [t_i,t_j] (through AtFloatHistogram), DB.ChunkQuerier full range; at five stages: live, after CompactOOOHead, after Compact (vertical merge of the overlapping blocks), after CompactHead, after a final Compact. distinct_nontrivial counts the enumerated (sequence, split, configuration) cases (distinct by construction) in which at least one returned sample was marked NotCounterReset.")
 	r.Set("rule", "see rule_db (part d) and rule_merge (part m)")
 	r.Assume("C12 presupposes complete results (C01/C11): a series whose full-range result misses samples is reported as db-*-sample-count and not examined further")
 	if !r.Expired() && (st.marked.Load() == 0 || len(st.hintsSeen.m) < 2) {
